@@ -473,7 +473,7 @@ def obligations(tier, seed):
             f"{desc}; defaults {st['defaults']}; finals {sorted(st['finals'])}",
             {"specifiers": n, "properties": 3, "priorities": "1..3 (symbolic)", "orders": f"all {len(list(itertools.permutations(range(n))))} (symbolic)"},
             enc, ["stub specifiers with string-token values and logging value thunks"],
-            opts=dict(total_timeout=240.0, per_path_timeout=20.0),
+            opts=dict(total_timeout=(240.0 if tier == "quick" else 1200.0), per_path_timeout=20.0),
             system_replay=None))
     obs.append(Obligation("builtin-specifier-tables", None,
                           "priorities/dependencies of every built-in specifier == docs/reference/specifiers.rst (ground, no symbolic inputs)",
